@@ -57,6 +57,9 @@ def gen_string(rng: random.Random, tricky: float) -> str:
 
 def gen_value(rng: random.Random, tricky: float, depth: int = 0):
     r = rng.random()
+    if depth == 0 and rng.random() < 0.01:
+        # larger than the default I/O buffer (and not compressible by the run-length layer)
+        return "".join(rng.choice(PLAIN) + rng.choice("0123456789") for _ in range(rng.choice([4200, 5000, 9000])))
     if depth >= 3 or r < 0.45:
         return gen_string(rng, tricky)
     if r < 0.55:
@@ -190,7 +193,8 @@ def gen_spec(seed: int, config: str | None = None) -> dict:
     if config in ("clock-only", "faults") and rng.random() < (1.0 if config == "clock-only" else 0.3):
         clock["gran_ns"] = rng.choice([1000, 10**6, 15_600_000])
         clock["cost_ns"] = rng.choice([0, 0, 50, 400])
-    knobs = {"read_chunk": None, "read_random": False, "consumer_await": bug.random() < 0.5}
+    knobs = {"read_chunk": None, "read_random": False, "consumer_await": bug.random() < 0.5,
+             "write_buffer": bug.choice([None, None, None, 16, 64, 512])}
     if config == "faults":
         kinds = [k for k in ("short_write", "torn_write", "short_read", "read_error", "dup_append", "corrupt") if bug.random() < 0.5]
         all_sends = [(nm, i, s) for nm, ss in sorted(sends_by_node.items()) for i, s in enumerate(ss)]
@@ -214,6 +218,9 @@ def gen_spec(seed: int, config: str | None = None) -> dict:
             faults.append({"kind": "dup_append", "serial": rng.choice(all_sends)[2]})
         if "corrupt" in kinds and all_sends:
             faults.append({"kind": "corrupt", "serial": rng.choice(all_sends)[2], "at": rng.randrange(1 << 16), "xor": rng.choice([1, 2, 0x20, 0x80, 0xFF])})
+    big = any(len(json.dumps(op["data"])) > 2000 for n in nodes for op in n["script"] if op["op"] == "send")
+    if big and knobs["read_chunk"]:
+        knobs["read_chunk"] = max(knobs["read_chunk"], 1024)  # byte-at-a-time reads of a 20 KB record only burn the step budget
     return {"property": PROP, "config": config, "nodes": nodes, "faults": faults, "clock": clock, "knobs": knobs}
 
 
@@ -315,6 +322,7 @@ class Env(fsseam.FsEnv):
         self.sim = sim
         self.spec = spec
         self.hist = hist
+        self.write_buffer = spec["knobs"].get("write_buffer")
         self.reads = {}  # node -> count of raw reads
         self.wfault = {}
         self.rfault = {}
@@ -837,8 +845,27 @@ def fault_kinds_left(spec):
     return ks
 
 
+def fresh_modules():
+    """Module- and class-level state of the code under test must not survive from one run into the next (packet ids are
+    the same in every run, so anything process-wide keyed by id would make a run depend on the runs before it and break
+    replay).  Re-executing the four small modules gives every run pristine classes; what is shared *within* a run stays shared."""
+    for name in ("tatsu.packetz.compact", "tatsu.packetz.escape", "tatsu.packetz.packet", "tatsu.packetz.queue"):
+        mod = sys.modules.get(name)
+        if mod is None:
+            continue
+        code = _MODULE_CODE.get(name)
+        if code is None:
+            with open(mod.__file__, encoding="utf-8") as f:
+                code = _MODULE_CODE[name] = compile(f.read(), mod.__file__, "exec")
+        exec(code, mod.__dict__)  # noqa: S102  what importlib.reload does, without recompiling the source every run
+
+
+_MODULE_CODE: dict = {}
+
+
 def run(spec: dict, decider: Decider, keep_events: bool = False) -> RunResult:
     rr = RunResult()
+    fresh_modules()
     sim = Sim(decider, step_cap=60_000, keep_events=keep_events)
     root = _SCRATCH["dir"] or os.getcwd()
     _SCRATCH["n"] += 1
@@ -1137,6 +1164,10 @@ def shrink_candidates(spec: dict):
         s = copy.deepcopy(spec)
         s["knobs"]["read_random"] = False
         yield s
+    if spec["knobs"].get("write_buffer"):
+        s = copy.deepcopy(spec)
+        s["knobs"]["write_buffer"] = None
+        yield s
     if spec["clock"]["gran_ns"] != 1:
         s = copy.deepcopy(spec)
         s["clock"]["gran_ns"] = 1
@@ -1318,7 +1349,7 @@ def spec_size(spec: dict) -> int:
     """Complexity measure for shrinking: JSON length plus penalties for every non-default knob."""
     n = len(json.dumps(spec, sort_keys=True, default=repr))
     k = spec["knobs"]
-    n += 40 * bool(k["read_chunk"]) + 20 * bool(k["read_random"]) + 10 * bool(k["consumer_await"])
+    n += 40 * bool(k["read_chunk"]) + 20 * bool(k["read_random"]) + 10 * bool(k["consumer_await"]) + 30 * bool(k.get("write_buffer"))
     n += 40 * (spec["clock"]["gran_ns"] != 1) + 10 * bool(spec["clock"]["start_ns"])
     for node in spec["nodes"]:
         n += {"iter": 0, "batch": 15, "async": 30}.get(node.get("mode", "iter"), 0)
